@@ -369,6 +369,8 @@ def labels_of_scenario(sc):
 
     UNK = 4294967295
     sched = set()   # records whose next popped RST_STREAM was made from a scheduled reset
+    kept_head = set()   # records whose opening HEADERS survived a clear_queue (reset while pending open)
+    last_reset = None
     keymap = {}     # serial -> stream id
     for st in sc["trace"]:
         for e in st.get("ev", []):
@@ -400,8 +402,18 @@ def labels_of_scenario(sc):
                 else:
                     continue          # DATA: reported by prio.send_data
                 add("LQueue %d %s" % (key, f), "(Some (%d, %d))" % (buffered, UNK))
+            elif name == "send.send_reset":
+                # [serial, id, streaming, send_closed, closed, pending bits, window, available, requested, buffered, is_reset, queue empty, reason]
+                last_reset = (a[0], bool(a[5] & 1) and not a[11] and not a[10])
             elif name == "prio.clear_queue":
                 add("LClear %d" % a[0])
+                if last_reset and last_reset[0] == a[0] and last_reset[1]:
+                    # reset of a request still waiting for a concurrency slot (repair a052906): the HEADERS that open the
+                    # stream stay queued in front of the RST_STREAM.  The content model drops the whole queue at LClear; the
+                    # emission of that one kept HEADERS frame is outside the content equation and is not compared.
+                    kept_head.add(a[0])
+                    counts["kept-head-after-clear"] = counts.get("kept-head-after-clear", 0) + 1
+                last_reset = None
             elif name == "prio.pop_data":
                 key, avail, win, sz, max_len, ln, eos = a[0], a[7], a[6], a[12], a[13], a[14], a[15]
                 eos_out = bool(eos) and ln >= sz
@@ -414,6 +426,8 @@ def labels_of_scenario(sc):
                 if kind == 3 and key in sched:
                     sched.discard(key)
                     add("LPopReset %d %d" % (key, extra), None, "(Some [%s])" % sig(key, 3, 0, False))
+                elif kind == 1 and key in kept_head:
+                    kept_head.discard(key)
                 elif kind in (1, 2, 3):
                     add("LPop %d 0 0%%Z 0%%Z" % key, "(Some (%d, %d))" % (buffered, UNK),
                         "(Some [%s])" % sig(key, kind, 0, bool(eos) if kind == 1 else False))
@@ -430,7 +444,7 @@ def labels_of_scenario(sc):
         sn = st.get("snap")
         if sn and not sn["conn"].get("conn_error") and "in_flight_data_frame" in sn["conn"]:
             ss = ["(%d, (%d, %d))" % (s["serial"], s["buffered_send_data"], s.get("pending_send_len", 0)) for s in sn["streams"] if "pending_send_len" in s and "serial" in s]
-            if len(ss) == len(sn["streams"]):
+            if len(ss) == len(sn["streams"]) and not kept_head:
                 fin = "(Some (%d, [%s]))" % (sn["conn"]["in_flight_data_frame"], "; ".join(ss))
     wd = []
     for st in sc["trace"]:
